@@ -1270,6 +1270,18 @@ impl Compiler {
             // position of the instruction that comes after the 'then' statement
             self.patch_jump(jump_if_false_pos);
         }
+        // A filter is not a closure: it runs on its own for every packet, when
+        // the call of an enclosing function is long over. So it cannot use the
+        // local variables of that function, only globals and its own locals.
+        if let Some(symbol) = self.symtab.free_symbols.first() {
+            return Err(CompileError::new(
+                &format!(
+                    "filter statement cannot use the local variable '{}' of an enclosing function",
+                    symbol.name
+                ),
+                expr.token.line,
+            ));
+        }
         // Get the number of locals and create the function
         let num_locals = self.symtab.get_num_definitions();
         let instructions = self.leave_scope();
